@@ -186,7 +186,11 @@ def run(repo, rep, tier):
     rep.floor('separation', 'header append site', len(apps), 1)
     rep.check('separation', 'a line is appended to the header only after it was tried as a banner', c.always_before(apps, parses), apps[0].stmt, 'header append not preceded by Banner.parse')
     succ = [n for n in walk_no_nested(gb) if isinstance(n, ast.If) and unparse(n.test) == 'self.__banner is not None' and any(k in ('for', 'while') for t, p, k in path_condition(n))]
-    ok = len(succ) == 1 and isinstance(succ[0].body[-1], ast.Return) and unparse(succ[0].body[-1].value) == '(self.__banner, self.__header, None)'
+    def _banner_return(r):
+        v = r.value if isinstance(r, ast.Return) else None
+        return isinstance(v, ast.Tuple) and len(v.elts) == 3 and unparse(v.elts[0]) == 'self.__banner' and unparse(v.elts[1]) in ('self.__header', 'list(self.__header)', 'self.__header[:]', 'self.__header.copy()') \
+            and isinstance(v.elts[2], ast.Constant) and v.elts[2].value is None
+    ok = len(succ) == 1 and _banner_return(succ[0].body[-1])
     rep.check('separation', 'the first line that parses is returned as the banner', ok, succ[0] if succ else gb, 'banner return changed')
     if succ:
         ret_nodes = c.nodes_of(succ[0].body[-1])
@@ -199,6 +203,29 @@ def run(repo, rep, tier):
             inner = inner._parent
         pa = [(unparse(t), pp) for t, pp, k in path_condition(apps[0].stmt, stop=inner) if k in ('if', 'guard')]
         rep.check('separation', 'header append is guarded by "did not parse" and "not empty"', ('self.__banner is not None', False) in pa and ('len(line.strip()) == 0', False) in pa, apps[0].stmt, 'header append guards: %s' % pa)
+    # get_banner hands out the header list object itself, and audit() keeps it until the report is written while the probes close and re-open the
+    # socket: the list may only grow by the append above; every other in-place operation on it anywhere in the class (clear, pop, remove, del,
+    # slice store, sort ...) would change the header text of a report whose banner was already read.  Resetting must rebind the attribute.
+    scls = repo.cls('ssh_socket', 'SSH_Socket')
+    returns_alias = any(isinstance(r, ast.Return) and isinstance(r.value, ast.Tuple) and any(unparse(e) == 'self.__header' for e in r.value.elts) for r in walk_no_nested(gb))
+    hdr_edits = []
+    for fn in [x for x in scls.body if isinstance(x, ast.FunctionDef)]:
+        for n in ast.walk(fn):
+            if isinstance(n, ast.Call) and isinstance(n.func, ast.Attribute) and unparse(n.func.value) == 'self.__header' and n.func.attr in ('clear', 'pop', 'remove', 'insert', 'extend', 'sort', 'reverse', 'append'):
+                if not (n.func.attr == 'append' and fn is gb):
+                    hdr_edits.append((fn, n))
+            if isinstance(n, ast.Delete) and any('self.__header' in unparse(t) for t in n.targets):
+                hdr_edits.append((fn, n))
+            if isinstance(n, (ast.Assign, ast.AugAssign)):
+                tg = n.targets if isinstance(n, ast.Assign) else [n.target]
+                if any(isinstance(t, ast.Subscript) and unparse(t.value) == 'self.__header' for t in tg) or (isinstance(n, ast.AugAssign) and unparse(n.target) == 'self.__header'):
+                    hdr_edits.append((fn, n))
+    if returns_alias:
+        for fn, n in hdr_edits:
+            rep.check('separation', 'the header list handed to the caller is not edited in place afterwards', False, n,
+                      'SSH_Socket.%s edits the header list in place (%s), but get_banner() returned that very list to audit(): the header lines read before the banner vanish from (or change in) the report once the probes %s' % (fn.name, unparse(n)[:50], 'close the socket' if fn.name == 'close' else 'run'),
+                      stmt='in-place edit of the returned header list in %s' % fn.name)
+    rep.ob('separation', 'header list: only appended to in get_banner, reset by rebinding (%d other in-place edits)' % len(hdr_edits), not (returns_alias and hdr_edits)) if not (returns_alias and hdr_edits) else None
     ln = [n for n in walk_no_nested(gb) if isinstance(n, ast.Assign) and unparse(n.targets[0]) == 'line']
     rep.check('separation', 'lines are read with read_line()', len(ln) == 1 and unparse(ln[0].value) == 'self.read_line()', ln[0] if ln else gb, 'line source changed')
     rl = repo.func('readbuf', 'ReadBuf.read_line')
